@@ -455,51 +455,66 @@ Proof.
   st_simpl_goal. repeat split; reflexivity.
 Qed.
 
-(* the header of f and a payload cut short *)
-Lemma lts_mid_payload_dies : forall s f, reader s = RRead ->
-  reader (step cfg s (PeerEOF (EofMidPayload f))) = RDead.
+(* the header of f and a payload cut short: what the LTS's reader does *)
+Lemma lts_mid_payload_reader : forall s f, reader s = RRead ->
+  let rep := lts_rep s f in
+  let saw' := saw_close s || ((f_typ f =? T_CloseConnectionResponse) && close_sent s) in
+  reader (step cfg s (PeerEOF (EofMidPayload f))) =
+    if rep && (f_len f <=? max_buffered) then RDead
+    else match handler_for cfg (f_typ f), rep with
+         | HDiscard, false => RDead
+         | _, _ => if saw' then RWaitDone else RDead
+         end.
 Proof.
-  intros s f Hrd. cbn [step]. unfold step_peer_eof. rewrite Hrd.
-  destruct (take_waiter cfg false (length (peer_sent s)) f
-              (note_close_resp f (set_peer_sent (peer_sent s ++ [f]) s))) as [s2 rep].
-  destruct (rep && (f_len f <=? max_buffered)); unfold reader_dies; st_simpl_goal; reflexivity.
+  intros s f Hrd. cbn zeta. cbn [step]. unfold step_peer_eof, lts_rep. rewrite Hrd.
+  unfold take_waiter, note_close_resp.
+  replace (close_sent (set_peer_sent (peer_sent s ++ [f]) s)) with (close_sent s) by reflexivity.
+  destruct ((f_typ f =? T_CloseConnectionResponse) && close_sent s); st_simpl_goal;
+  destruct (consults cfg (f_typ f)); cbn [andb orb];
+  try (destruct (lookup (f_id f) (awaiting s)) as [c|]; cbn [is_some andb]);
+  try (destruct (N.ltb_spec max_buffered (f_len f)); destruct (N.leb_spec (f_len f) max_buffered); try lia;
+       cbn [andb orb]);
+  try (destruct (lookup c (callers s)) as [[? | ? | ? ? | ? ?]|]);
+  unfold eof_after_dispatch, run_handler, ack_enqueue, reader_dies, set_caller;
+  destruct (handler_for cfg (f_typ f)); st_simpl_goal;
+  try (destruct (Nat.ltb (length (ackq s)) ack_cap)); st_simpl_goal;
+  rewrite ?orb_true_r, ?orb_false_r; try (destruct (saw_close s)); st_simpl_goal; reflexivity.
 Qed.
 
-(* byte level, frame on a handler path (a handler or default handler exists and the payload is
-   not being buffered for a caller): the handler reads what is there, the drain meets EOF, which
-   io.Copy does not report, and the loop goes on to the next header read; if receivedClosed is
-   set by then it parks *)
-Lemma stream_mid_payload_handler : forall st env i f pl w, SP.frame_wf f ->
+(* byte level: the frame is handed over without its payload having to be complete — a handler or
+   default handler reads through the LimitReader, or an oversize reply goes header-only to its
+   caller: the drain meets EOF, which io.Copy does not report, passToHandler returns nil and the
+   NEXT header read meets the EOF; if receivedClosed is set by then the loop parks *)
+Lemma stream_mid_payload_continues : forall st env i f pl, SP.frame_wf f ->
   S.len pl < S.len (S.f_payload f) ->
-  S.pick_handler cfg_of (S.f_typ f) = Some w ->
-  (SP.awaited cfg_of (S.s_aw st) (env i) f = false \/ max_buffered < S.len (S.f_payload f)) ->
+  (SP.awaited cfg_of (S.s_aw st) (env i) f = true /\ max_buffered < S.len (S.f_payload f)) \/
+  (SP.awaited cfg_of (S.s_aw st) (env i) f = false /\ S.pick_handler cfg_of (S.f_typ f) <> None) ->
   let r := SP.serve_from max_buffered cfg_of st env i (S.header_bytes f ++ pl) in
   length (S.r_log r) = 1%nat /\
   S.r_end r = (if S.s_closed_seen st || ((S.f_typ f =? S.MsgCloseConnectionResponse) && S.e_close_sent (env i))
                then S.EndWaitClose else S.EndEOF).
 Proof.
-  intros st env i f pl w Hwf Hlt Hw Hpath r. subst r.
+  intros st env i f pl Hwf Hlt Hpath r. subst r.
   unfold SP.serve_from. cbn [S.read_loop]. unfold S.read_iter.
   rewrite SP.read_header_frame by assumption.
   unfold S.pass_to_handler. cbn [S.frame_header S.h_len S.h_typ S.h_id].
-  rewrite Hw.
   assert (Hs : S.split_at (S.len (S.f_payload f)) pl = (pl, [])).
   { rewrite SP.split_at_spec. unfold S.len in *. rewrite firstn_all2, skipn_all2 by lia. reflexivity. }
-  rewrite Hs.
-  unfold SP.awaited in Hpath.
-  destruct (negb (S.never_reply cfg_of (S.f_typ f)) && S.mem (S.f_id f) (S.register (S.e_register (env i)) (S.s_aw st))) eqn:Haw.
-  - destruct Hpath as [Hf|Hbig]; [congruence|].
-    replace (max_buffered <? S.len (S.f_payload f)) with true by (symmetry; apply N.ltb_lt; assumption).
+  rewrite Hs. unfold SP.awaited in Hpath.
+  destruct Hpath as [[Ha Hbig]|[Ha Hh]]; rewrite Ha.
+  - replace (max_buffered <? S.len (S.f_payload f)) with true by (symmetry; apply N.ltb_lt; assumption).
+    destruct (S.pick_handler cfg_of (S.f_typ f));
     destruct (length pl) eqn:Hl; cbn [S.read_loop S.cons_log S.r_log S.r_end length];
       unfold S.read_iter; cbn [S.read_header S.split_at]; cbn [S.s_closed_seen];
       (split; [reflexivity|]); destruct (_ || _); reflexivity.
-  - destruct (length pl) eqn:Hl; cbn [S.read_loop S.cons_log S.r_log S.r_end length];
+  - destruct (S.pick_handler cfg_of (S.f_typ f)) as [w|]; [|congruence].
+    destruct (length pl) eqn:Hl; cbn [S.read_loop S.cons_log S.r_log S.r_end length];
       unfold S.read_iter; cbn [S.read_header S.split_at]; cbn [S.s_closed_seen];
       (split; [reflexivity|]); destruct (_ || _); reflexivity.
 Qed.
 
 (* byte level, payload being buffered for a caller, or being discarded because nobody is
-   entitled: the short read is an error and ends the loop — as [reader_dies] in the LTS *)
+   entitled: the short read is an error and ends the loop *)
 Lemma stream_mid_payload_dies : forall st env i f pl, SP.frame_wf f ->
   S.len pl < S.len (S.f_payload f) ->
   (SP.awaited cfg_of (S.s_aw st) (env i) f = true /\ S.len (S.f_payload f) <= max_buffered) \/
@@ -522,62 +537,88 @@ Proof.
   - rewrite Hn. cbn [S.r_log S.r_end length]. split; reflexivity.
 Qed.
 
-Theorem refine_eof_mid_payload : forall s st env i f pl, SP.frame_wf f -> reader s = RRead ->
+(* A frame cut short inside its payload: in every case the byte loop's ending and the LTS's
+   PeerEOF (EofMidPayload (abs f)) agree — EndShortDiscard / EndEOF <-> the reader dies with an
+   error, EndWaitClose <-> the reader waits for done. *)
+Theorem refine_eof_mid_payload : forall s st b i env f pl, SP.frame_wf f -> reader s = RRead ->
+  rel st s -> env i = env_of b (close_sent s) ->
   S.len pl < S.len (S.f_payload f) ->
   let r := SP.serve_from max_buffered cfg_of st env i (S.header_bytes f ++ pl) in
   let s' := step cfg s (PeerEOF (EofMidPayload (abs f))) in
-  reader s' = RDead /\
-  ((SP.awaited cfg_of (S.s_aw st) (env i) f = true /\ S.len (S.f_payload f) <= max_buffered) \/
-   (SP.awaited cfg_of (S.s_aw st) (env i) f = false /\ S.pick_handler cfg_of (S.f_typ f) = None) ->
-   S.r_end r = S.EndShortDiscard) /\
-  (forall w, S.pick_handler cfg_of (S.f_typ f) = Some w ->
-   (SP.awaited cfg_of (S.s_aw st) (env i) f = false \/ max_buffered < S.len (S.f_payload f)) ->
-   S.r_end r = (if S.s_closed_seen st || ((S.f_typ f =? S.MsgCloseConnectionResponse) && S.e_close_sent (env i))
-                then S.EndWaitClose else S.EndEOF)).
+  length (S.r_log r) = 1%nat /\
+  ((S.r_end r = S.EndShortDiscard \/ S.r_end r = S.EndEOF) /\ reader s' = RDead \/
+   S.r_end r = S.EndWaitClose /\ reader s' = RWaitDone).
 Proof.
-  intros s st env i f pl Hwf Hrd Hlt r s'. split; [apply lts_mid_payload_dies; assumption|]. split.
-  - intro Hc. apply (stream_mid_payload_dies st env i f pl Hwf Hlt Hc).
-  - intros w Hw Hp. apply (stream_mid_payload_handler st env i f pl w Hwf Hlt Hw Hp).
+  intros s st b i env f pl Hwf Hrd R He Hlt r s'.
+  pose proof (lts_mid_payload_reader s (abs f) Hrd) as L. cbn zeta in L. fold s' in L.
+  unfold lts_rep in L. cbn [abs f_typ f_id f_len] in L.
+  pose proof (awaited_expected st s b (close_sent s) f R) as Haw. rewrite <- He in Haw. rewrite <- Haw in L.
+  assert (Hpick := pick_handler_cfg_of (S.f_typ f)).
+  assert (Hcs : S.s_closed_seen st || ((S.f_typ f =? S.MsgCloseConnectionResponse) && S.e_close_sent (env i))
+                = saw_close s || ((S.f_typ f =? T_CloseConnectionResponse) && close_sent s)).
+  { rewrite (rel_close _ _ R), He. reflexivity. }
+  destruct (SP.awaited cfg_of (S.s_aw st) (env i) f) eqn:Ha; cbn [andb] in L.
+  - destruct (N.leb_spec (S.len (S.f_payload f)) max_buffered) as [Hle|Hgt].
+    + destruct (stream_mid_payload_dies st env i f pl Hwf Hlt (or_introl (conj Ha Hle))) as [E1 E2].
+      fold r in E1, E2. split; [assumption|]. left. split; [left; assumption|assumption].
+    + destruct (stream_mid_payload_continues st env i f pl Hwf Hlt (or_introl (conj Ha Hgt))) as [E1 E2].
+      fold r in E1, E2. split; [assumption|]. rewrite Hcs in E2.
+      assert (L' : reader s' = if saw_close s || ((S.f_typ f =? T_CloseConnectionResponse) && close_sent s)
+                               then RWaitDone else RDead).
+      { rewrite L. destruct (handler_for cfg (S.f_typ f)); reflexivity. }
+      destruct (saw_close s || _); [right|left]; split; auto.
+  - destruct (handler_for cfg (S.f_typ f)) eqn:Hk.
+    1-3: (assert (Hh : S.pick_handler cfg_of (S.f_typ f) <> None) by (rewrite Hpick; discriminate);
+          destruct (stream_mid_payload_continues st env i f pl Hwf Hlt (or_intror (conj Ha Hh))) as [E1 E2];
+          fold r in E1, E2; split; [assumption|]; rewrite Hcs in E2;
+          destruct (saw_close s || _); [right|left]; split; auto).
+    destruct (stream_mid_payload_dies st env i f pl Hwf Hlt (or_intror (conj Ha Hpick))) as [E1 E2].
+    fold r in E1, E2. split; [assumption|]. left. split; [left; assumption|assumption].
 Qed.
 
 End Refine.
 
-(* ------------------------------------------------------------------ where the two models differ *)
+(* ------------------------------------------------------------------ the two former disagreements *)
 Definition cfg0 : config := mkConfig true true 1 true [] true.   (* default handler, ackHandler *)
 Definition tag0 : list N -> N := fun _ => 0.
 Definition info0 : N -> list N -> info := fun _ _ => IOpaque.
 
-(* (1) A frame on a handler path whose payload is cut short, after receivedClosed was set.
-   Byte model (and the code: io.Copy(io.Discard, LimitReader) returns nil at EOF, so passToHandler
-   returns nil and the NEXT readHeader sees EOF with receivedClosed set): the loop parks on c.done
-   (EndWaitClose).  LTS: PeerEOF (EofMidPayload f) always ends in reader_dies (its comment says
-   "the drain fails"; it does not for a clean EOF).  Observable difference: whether Connect returns.
-   Witness: receivedClosed already set; KeepAlive-typed frame 30 with 3 payload bytes declared,
-   1 sent; default handler. *)
-Theorem disagree_truncated_handler_after_close :
+(* (1) A frame on a handler path whose payload is cut short, after receivedClosed was set: the
+   handler reads what is there, io.Copy(io.Discard, LimitReader) returns nil at EOF, passToHandler
+   returns nil, the next readHeader sees EOF with receivedClosed set, the loop parks on c.done.
+   Model.v used to let the reader die here; since the repair (eof_after_dispatch) it parks too. *)
+Example agree_truncated_handler_after_close :
   let s := set_saw_close true (set_reader RRead (init cfg0)) in
   let st := S.mkState [] true in
   let f := S.mkFrame 0 1 30 7 [1; 2; 3] in
   rel st s /\ reader s = RRead /\
-  S.r_end (SP.serve_from max_buffered (cfg_of cfg0) st (fun _ => env_of (S.HRead 0)) O
+  S.r_end (SP.serve_from max_buffered (cfg_of cfg0) st (fun _ => env_of (S.HRead 0) (close_sent s)) O
              (S.header_bytes f ++ [1])) = S.EndWaitClose /\
-  reader (step cfg0 s (PeerEOF (EofMidPayload (abs tag0 info0 f)))) = RDead.
+  reader (step cfg0 s (PeerEOF (EofMidPayload (abs tag0 info0 f)))) = RWaitDone.
 Proof.
   cbn zeta. split; [constructor; [intro i; reflexivity|reflexivity]|].
   split; [reflexivity|]. split; vm_compute; reflexivity.
 Qed.
 
-(* (2) An unsolicited CloseConnectionResponse, then EOF.  Since fix ea578f8 the code sets
-   receivedClosed only if this client has written CloseConnection (byte model:
-   e_close_sent = false -> EndEOF, Connect returns the read error).  The LTS's note_close_resp
-   sets saw_close for every CloseConnectionResponse, so PeerEOF EofBoundary parks the reader
-   (RWaitDone) although [out] shows that no CloseConnection was ever written. *)
-Theorem disagree_unsolicited_close :
+(* (2) An unsolicited CloseConnectionResponse, then EOF: no CloseConnection was written
+   (close_sent = false), receivedClosed stays false, the EOF is a read error in both models.
+   Model.v used to park the reader here (note_close_resp ignored c.sentClose). *)
+Example agree_unsolicited_close :
   let s := set_reader RRead (init cfg0) in
   let f := S.mkFrame 0 1 4 9 [] in
-  out s = [] /\
-  S.r_end (S.serve max_buffered (cfg_of cfg0) S.st0 (fun _ => S.mkEnv [] (S.HRead 0) false)
+  close_sent s = false /\
+  S.r_end (S.serve max_buffered (cfg_of cfg0) S.st0 (fun _ => env_of (S.HRead 0) (close_sent s))
              (S.frame_bytes f)) = S.EndEOF /\
-  reader (run_from cfg0 s [RFrame (abs tag0 info0 f) HBNone; RCheck; PeerEOF EofBoundary]) = RWaitDone.
+  reader (run_from cfg0 s [RFrame (abs tag0 info0 f) HBNone; RCheck; PeerEOF EofBoundary]) = RDead.
 Proof. cbn zeta. split; [reflexivity|]. split; vm_compute; reflexivity. Qed.
 
+(* ... and with a CloseConnection in the write loop's hand the same stream parks both *)
+Example agree_solicited_close :
+  let o := mkOFrame (mkFrame 1 T_CloseConnection 0 0 0 IOpaque) (Some 0) in
+  let s := set_writer (WHolding o) (set_reader RRead (init cfg0)) in
+  let f := S.mkFrame 0 1 4 9 [] in
+  close_sent s = true /\
+  S.r_end (S.serve max_buffered (cfg_of cfg0) S.st0 (fun _ => env_of (S.HRead 0) (close_sent s))
+             (S.frame_bytes f)) = S.EndWaitClose /\
+  reader (run_from cfg0 s [RFrame (abs tag0 info0 f) HBNone; RCheck; PeerEOF EofBoundary]) = RWaitDone.
+Proof. cbn zeta. split; [reflexivity|]. split; vm_compute; reflexivity. Qed.
